@@ -10,13 +10,30 @@ import (
 )
 
 // skFromInt builds a BLS private key from a scalar in [1, r-1].
+// skFromInt decodes the private key k (1 <= k < r). A refusal is not a harness bug but a finding (the decoder rejects a
+// scalar of the documented range): it is recorded and reported by the "decoder-refusals" case every generator ends
+// with; the caller gets the key 1 so that the run can go on.
 func skFromInt(k *big.Int) crypto.PrivateKey {
 	sk, err := crypto.DecodePrivateKey(crypto.BLSBLS12381, be(k, 32))
 	if err != nil {
-		panic(err)
+		if k.Sign() <= 0 || k.Cmp(blsR) >= 0 {
+			panic(err) // a harness bug: asked for a key outside the range
+		}
+		refusalMu.Lock()
+		if len(refusals) < 20 {
+			refusals = append(refusals, "0x"+k.Text(16)+": "+err.Error())
+		}
+		refusalMu.Unlock()
+		one, err1 := crypto.DecodePrivateKey(crypto.BLSBLS12381, be(big.NewInt(1), 32))
+		if err1 != nil {
+			panic(err1)
+		}
+		return one
 	}
 	return sk
 }
+
+
 
 var skOne crypto.PrivateKey
 
